@@ -1793,3 +1793,5 @@ M("c10-multi-forcedelete-skips-name-check", ["C10"], {"C10": ["R10.10"]}, "backe
 # ---------------------------------------------------------------- F30
 REVERT("f30-revert-directory-is-not-a-key", ["C02"], {"C02": ["R02.9"]}, "0024-fix-deleting-a-key-that-is-only-a-directory-on-disk-.patch")
 REVERT("f31-revert-modtime-probe-exclusive", ["C10"], {"C10": ["R10.11"]}, "0025-fix-the-mod-time-probe-of-the-fs-backends-never-touc.patch")
+# ---------------------------------------------------------------- F32
+REVERT("f32-revert-removeall-bucket-name", ["C10", "C02"], {"C10": ["R10.14"], "C02": ["R10.14"]}, "0026-fix-multi-bucket-fs-backend-deleting-a-bucket-no-lon.patch")
